@@ -59,5 +59,12 @@ def load():
             r.trusted.setdefault(k, []).extend(v)
         for k, v in getattr(mod, 'ASSUMPTIONS', {}).items():
             r.assume.setdefault(k, []).extend(v)
+    # layering (contracts/a_meta.py): the root contracts of a layer belong to every property that depends on the layer
+    import contracts.a_meta as meta
+    for prop, layers in getattr(meta, 'PROPERTY_LAYERS', {}).items():
+        for layer in layers:
+            for k in getattr(meta, 'LAYER_ROOTS', {}).get(layer, []):
+                if prop not in r.contracts[k]['props']:
+                    r.contracts[k]['props'] = list(r.contracts[k]['props']) + [prop]
     _cache = r
     return r
